@@ -1384,8 +1384,11 @@ func looksLikeHash(fd *ast.FuncDecl) bool {
 		case *ast.ForStmt, *ast.RangeStmt:
 			loop = true
 		case *ast.AssignStmt:
+			// multiplication or xor: shifting and or-ing bytes into a word is
+			// PACKING (often lossless for the bounded inputs it is used on: a
+			// fingerprint of at most five bytes, a verdict word), not hashing
 			switch x.Tok {
-			case token.MUL_ASSIGN, token.XOR_ASSIGN, token.SHL_ASSIGN:
+			case token.MUL_ASSIGN, token.XOR_ASSIGN:
 				mix = true
 			}
 		case *ast.BinaryExpr:
@@ -1394,7 +1397,7 @@ func looksLikeHash(fd *ast.FuncDecl) bool {
 				if bigConst(x.X) || bigConst(x.Y) {
 					mix = true
 				}
-			case token.XOR, token.SHL:
+			case token.XOR:
 				mix = true
 			}
 		}
